@@ -13,6 +13,22 @@ def pollute(P):
             other.create(t)
         except Exception:  # noqa - e.g. `=/` on a name without definition in this class
             pass
+    # a grammar extending core rules while their (documented, language-preserving for one-character alternatives)
+    # first-match flag is set: the extension must still land in the extending class only
+    flagged = type("FlagGrammar", (P.Rule,), {})
+    for name, t in [("ALPHA", 'ALPHA =/ "_"'), ("WSP", "WSP =/ %x0B"), ("BIT", 'BIT =/ "2"'), ("HEXDIG", 'HEXDIG =/ "g"'), ("CTL", "CTL =/ %x80")]:
+        core = P.Rule(name)
+        try:
+            old = core.first_match_alternation
+        except Exception:  # noqa - not an alternation
+            continue
+        try:
+            core.first_match_alternation = True
+            flagged.create(t)
+        except Exception:  # noqa
+            pass
+        finally:
+            core.first_match_alternation = old
     look = type("Rule", (P.Rule,), {})
     for t in ["CRLF = %x0D.0A / %x0A", "WSP = SP / HTAB / %x0B", "LWSP = *(WSP / CRLF WSP)", "fws = *(WSP / CRLF WSP)",
               'rulename = ALPHA *(ALPHA / DIGIT / "-" / "_")', "c-nl = comment / CRLF / %x0A",
